@@ -66,7 +66,7 @@ fn main() {
     }
 
     // zaddr_parse: the world's own addresses in all encodings + ZIP 321 examples
-    let spec = WorldSpec { seed: [11; 32], n_accounts: 1, n_foreign: 1, nu6_3_offset: Some(2), retention_interval: None };
+    let spec = WorldSpec { seed: [11; 32], n_accounts: 1, n_foreign: 1, nu6_3_offset: Some(2), retention_interval: None, base: None };
     let world = World::new(&spec);
     let k = &world.accounts[0];
     {
@@ -145,7 +145,7 @@ fn main() {
 
     // compact_block_scan: protobuf-encoded blocks with outputs for the fuzz target's key (seed [7;32], account 0)
     {
-        let spec = WorldSpec { seed: [7; 32], n_accounts: 1, n_foreign: 1, nu6_3_offset: Some(2), retention_interval: None };
+        let spec = WorldSpec { seed: [7; 32], n_accounts: 1, n_foreign: 1, nu6_3_offset: Some(2), retention_interval: None, base: None };
         let world = World::new(&spec);
         let mut chain = Chain::new(&world);
         let recv = |pool, who| ItemSpec::Recv { pool, who, scope: ScopeSel::External, value: 50_000 };
